@@ -4613,6 +4613,90 @@ Section Sem.
       - (* Hcons *) intros ty name body IHb rest IHr Hs k tryn e. simpl in Hs. spl. useih. rewrite rexec_handlers_cons. unfold reraise.
         pose proof (grows_ropt rc0 ty H0). grs.
     Qed.
+
+    (* ---- bracket structure of a covered call that returns: the operands, then the announcement and pre_call, then whatever
+            the callee reports, then post_call -- in this order and nothing else *)
+    Lemma bind_ok_inv {A B} (m : M A) (k : A -> M B) s v s' :
+      bind m k s = (Ok v, s') -> exists a s1, m s = (Ok a, s1) /\ k a s1 = (Ok v, s').
+    Proof. unfold bind. destruct (m s) as [r s1]. destruct r; try discriminate. intros E. exists a, s1. split; [reflexivity|exact E]. Qed.
+
+    Definition log (s : st) : list (delivery earg) := dels (eng s).
+    (* the deliveries of one notification: one per analysis that implements the hook and is not filtered, in list order *)
+    Definition dels_of (f : string) (args : list earg) : list (delivery earg) :=
+      map (DispatchProofs.mkd earg f args) (DispatchProofs.sel earg e_filt_str 0 analyses f args).
+
+    Lemma notify_log f args s : exists r, fst (notify f args s) = Ok r /\ log (snd (notify f args s)) = log s ++ dels_of f args.
+    Proof.
+      Transparent notify. unfold notify, log, dels_of.
+      pose proof (cie_loop_dels earg e_filt_str e_as_path e_is_iid line_of analyses 0 f args (eng s) None) as [Dl _].
+      unfold call_if_exists. destruct (cie_loop earg e_filt_str e_as_path e_is_iid line_of 0 analyses f args (eng s) None) as [r e'].
+      cbn [fst snd eng] in *. exists r. split; [reflexivity|exact Dl]. Opaque notify.
+    Qed.
+    Lemma ev_log f n args s r s' : ev f n args s = (Ok r, s') -> log s' = log s ++ dels_of f (loc n ++ args).
+    Proof.
+      Transparent ev. unfold ev. Opaque ev. intros E. destruct (notify_log f (loc n ++ args) s) as [r0 [_ L]]. rewrite E in L. exact L.
+    Qed.
+    Lemma announce_log n s u s' : announce true true n s = (Ok u, s') ->
+      log s' = log s ++ dels_of "runtime_event" (loc n) ++ dels_of "control_flow_event" (loc n).
+    Proof.
+      Transparent announce RE CF. unfold announce, RE, CF. Opaque announce RE CF. intros E.
+      apply bind_ok_inv in E. destruct E as [a [s1 [E1 E2]]].
+      apply bind_ok_inv in E1. destruct E1 as [r1 [s1' [E1 E1']]]. inversion E1'; subst.
+      apply bind_ok_inv in E2. destruct E2 as [r2 [s2' [E2 E2']]]. inversion E2'; subst.
+      apply ev_log in E1. apply ev_log in E2. rewrite E2, E1, !app_nil_r, app_assoc. reflexivity.
+    Qed.
+    Lemma grows_log {A} (m : M A) s : grows m -> exists d, log (snd (m s)) = log s ++ d.
+    Proof. intros G. exact (G s). Qed.
+
+    Theorem call_bracket c n f args s v s' :
+      src_e f = true -> src_es args = true ->
+      cov H "pre_call" || cov H "post_call" = true ->
+      reval H call c (ECall n f args) s = (Ok v, s') ->
+      exists fv vs rv d_ops d_callee s2 s3,
+        r_do_call call fv vs s2 = (Ok rv, s3) /\ log s3 = log s2 ++ d_callee
+        /\ log s' = log s ++ d_ops
+                     ++ (dels_of "runtime_event" (loc n) ++ dels_of "control_flow_event" (loc n))
+                     ++ dels_of "pre_call" (loc n ++ [AV fv; AL (map AV vs); AD])
+                     ++ d_callee
+                     ++ dels_of "post_call" (loc n ++ [AV rv; AV fv; AT (map AV vs); AD]).
+    Proof.
+      intros Hf Ha Hc E. rewrite reval_unfold in E. cbn [reval_body] in E. rewrite Hc in E.
+      apply bind_ok_inv in E. destruct E as [fv [sa [Ef E]]].
+      apply bind_ok_inv in E. destruct E as [vs [sb [Eargs E]]].
+      apply bind_ok_inv in E. destruct E as [u [sc [Eann E]]].
+      apply bind_ok_inv in E. destruct E as [rp [sd [Epre E]]].
+      apply bind_ok_inv in E. destruct E as [rv [se [Ecall E]]].
+      apply bind_ok_inv in E. destruct E as [rq [sf [Epost E]]]. inversion E; subst.
+      destruct (grows_log (reval H call c f) s (proj1 (GE f Hf c))) as [d1 L1]. rewrite Ef in L1. cbn [snd] in L1.
+      destruct (grows_log (reval_list H call (rc_str c) args) sa (proj1 (proj2 grows_expr) args Ha (rc_str c))) as [d2 L2]. rewrite Eargs in L2. cbn [snd] in L2.
+      assert (Gc : grows (r_do_call call fv vs)). { unfold r_do_call. destruct (as_fun fv); [apply Hcall|apply grows_prim]. }
+      destruct (grows_log _ sd Gc) as [dc Lc]. rewrite Ecall in Lc. cbn [snd] in Lc.
+      exists fv, vs, rv, (d1 ++ d2), dc, sd, se. split; [exact Ecall|]. split; [exact Lc|].
+      rewrite (ev_log _ _ _ _ _ _ Epost), Lc, (ev_log _ _ _ _ _ _ Epre), (announce_log _ _ _ _ Eann), L2, L1.
+      rewrite <- !app_assoc. reflexivity.
+    Qed.
+
+    Lemma dels_of_spec f args : Forall (fun d => d_hook d = f /\ d_args d = args) (dels_of f args).
+    Proof. unfold dels_of. apply Forall_forall. intros d Hin. apply in_map_iff in Hin. destruct Hin as [i [<- _]]. split; reflexivity. Qed.
+
+    (* the same, saying only what kind of deliveries each segment consists of *)
+    Theorem call_bracket_events c n f args s v s' :
+      src_e f = true -> src_es args = true ->
+      cov H "pre_call" || cov H "post_call" = true ->
+      reval H call c (ECall n f args) s = (Ok v, s') ->
+      exists fv vs rv d_ops d_ann d_pre d_callee d_post s2 s3,
+        r_do_call call fv vs s2 = (Ok rv, s3) /\ log s3 = log s2 ++ d_callee
+        /\ log s' = log s ++ d_ops ++ d_ann ++ d_pre ++ d_callee ++ d_post
+        /\ Forall (fun d => d_hook d = "runtime_event" \/ d_hook d = "control_flow_event") d_ann
+        /\ Forall (fun d => d_hook d = "pre_call" /\ d_args d = loc n ++ [AV fv; AL (map AV vs); AD]) d_pre
+        /\ Forall (fun d => d_hook d = "post_call" /\ d_args d = loc n ++ [AV rv; AV fv; AT (map AV vs); AD]) d_post.
+    Proof.
+      intros Hf Ha Hc E. destruct (call_bracket c n f args s v s' Hf Ha Hc E) as [fv [vs [rv [d_ops [dc [s2 [s3 [E1 [E2 E3]]]]]]]]].
+      exists fv, vs, rv, d_ops, (dels_of "runtime_event" (loc n) ++ dels_of "control_flow_event" (loc n)),
+             (dels_of "pre_call" (loc n ++ [AV fv; AL (map AV vs); AD])), dc, (dels_of "post_call" (loc n ++ [AV rv; AV fv; AT (map AV vs); AD])), s2, s3.
+      split; [exact E1|]. split; [exact E2|]. split; [exact E3|]. split; [|split; apply dels_of_spec].
+      apply Forall_app. split; eapply Forall_impl; try apply dels_of_spec; intros d [Hh _]; [left|right]; exact Hh.
+    Qed.
   End Grows.
 
   Section GrowsRun.
